@@ -78,3 +78,30 @@ Proof.
   cbv zeta. split; [repeat constructor; cbn; intuition discriminate|]. split; [cbn; intuition reflexivity|].
   split; [reflexivity|]. split; [reflexivity|]. intros a _. unfold is_mark. destruct a; reflexivity.
 Qed.
+
+(* The end-of-line slots a font with line-end contextuals makes Segment::justify add (addLineEnd / delLineEnd, transcribed in
+   Model/LinePtrModel.v): put before a slot that heads its chain -- what justify assumes of the line's first slot -- and deleted again,
+   a fresh end-of-line slot leaves every link of every other slot, m_first and m_last as they were. *)
+Theorem C19_line_end_slot_leaves_no_trace : forall marks s e n,
+  length (p_next s) = length (p_prev s) -> (length (p_next s) <= e)%nat -> (n < length (p_next s))%nat -> getp (p_prev s) n = None ->
+  p_first s <> Some e -> p_last s <> Some e ->
+  exists s1 s2, papply marks s (PAddEnd e (Some n) false) = POk s1 /\ papply marks s1 (PDelEnd e) = POk s2 /\
+    (forall i, i <> e -> getp (p_next s2) i = getp (p_next s) i /\ getp (p_prev s2) i = getp (p_prev s) i) /\
+    p_first s2 = p_first s /\ p_last s2 = p_last s.
+Proof. exact add_del_restores. Qed.
+Print Assumptions C19_line_end_slot_leaves_no_trace.
+(* ... whereas the recorded defect of right-to-left lines (known_findings.txt: both end-of-line slots linked before ONE slot, the second
+   addLineEnd finding a predecessor that it does not relink) is what the same transcription predicts: slots 0 1, end-of-line slots 2 3
+   both put before slot 0 and deleted in the order justify deletes them leave slot 0 with a prev pointer to the freed slot 2 *)
+Example C19_links_of_the_line_end_defect :
+  let s0 := mkp [Some 1; None]%nat [None; Some 0]%nat (Some 0%nat) (Some 1%nat) in
+  match papply [] s0 (PAddEnd 2 (Some 0%nat) false) with
+  | POk s1 => match papply [] s1 (PAddEnd 3 (Some 0%nat) false) with
+              | POk s2 => match papply [] s2 (PDelEnd 2) with
+                          | POk s3 => match papply [] s3 (PDelEnd 3) with
+                                      | POk s4 => getp (p_prev s4) 0 = Some 2%nat /\ getp (p_next s4) 0 = Some 1%nat
+                                      | _ => False end
+                          | _ => False end
+              | _ => False end
+  | _ => False end.
+Proof. vm_compute. split; reflexivity. Qed.
